@@ -70,6 +70,12 @@ def grammar_paths():
             out.append(("chleg", None, fn))
         else:
             out.append(("ch" + kind_of(fn), None, fn))
+    # the usual layout of a recording: the metadata channel lies INSIDE its RF channel (top/chrf/metadata/...)
+    for sub in SUBS:
+        for fn in FILES:
+            if kind_of(fn) == "dmd":
+                out.append(("chrf/metadata", sub, fn))
+    out.append(("chrf/metadata", None, "dmd_properties.h5"))
     return out
 
 
@@ -120,6 +126,9 @@ class Oracle:
         os.makedirs(chd)
         if ch == "chleg":
             pass  # the legacy properties file is the path itself
+        elif "/" in ch:
+            open(os.path.join(root, ch.split("/")[0], "drf_properties.h5"), "wb").close()
+            open(os.path.join(chd, "dmd_properties.h5"), "wb").close()
         else:
             open(os.path.join(chd, "drf_properties.h5" if ch.endswith("rf") else "dmd_properties.h5"), "wb").close()
         full = os.path.join(chd, fn) if sub is None else os.path.join(chd, sub, fn)
